@@ -124,6 +124,15 @@ def make_source(fv):
             funcs.append("net")
             P["net"] = {tax: 0.3}
             aux_arg = "net"
+    elif fv["aux"] == "age":
+        # explicit-only: auxiliary functions that depend on the PERIOD only (the same value for every agent of a period)
+        wage = pn("wage")
+        L.append("def age(_period):\n    return 18.0 + 1.5 * _period")
+        L.append(f"def pens(age, {wage}):\n    return {wage} * 0.1 * (age - 17.0) * (age - 16.0)")
+        funcs += ["age", "pens"]
+        P["age"] = {}
+        P["pens"] = {wage: 1.9}
+        aux_arg = "pens"
     elif fv["aux"] == "const":
         L.append("def kconst():\n    return 1.7")
         funcs.append("kconst")
